@@ -901,6 +901,9 @@ func (e *SEnv) call(n *ECall) Val {
 				args = append(args, v.T)
 			}
 			c.ufun(name, sorts, sortByName(u.Res))
+			if u.Res == "str" {
+				return Val{T: sx(name, args...), S: SInt, GT: types.Typ[types.String]}
+			}
 			return Val{T: sx(name, args...), S: sortByName(u.Res)}
 		}
 		// application of a function-valued parameter / variable
